@@ -20,14 +20,19 @@ import pipegen
 import terms
 
 PID = "C11"
-PROPS = ["PfModel.Props.C11", "PfModel.Props.C11Ext"]
+PROPS = ["PfModel.Props.C11", "PfModel.Props.C11Ext", "PfModel.Props.C11Comp", "PfModel.Props.C11Val", "PfModel.Props.C11Auto"]
 DRIVER = "C11"
 RULE = ("call DAGs of 1-6 term-building functions (pipegen; nullary p=0.2, functions whose parameters are all defaulted/bound, tuple "
         "outputs, renames, bound values) and well-formed map pipelines of 1-4 functions (mapgen); for every pipeline every non-empty "
         "set S of outputs when there are <= 4 outputs (else all singletons + sampled sets); per S the cuts: all needed roots, needed "
         "roots with defaulted ones left out, interior names only, interior names + the roots still needed, one required root dropped "
         "(must be rejected naming it), plus a separate malformed stream (surplus names, S meeting I, one output of a tuple provided, "
-        "unknown names); entry points subpipeline / map(output_names=S) / map(auto_subpipeline=True[, output_names=S]) / run(o, kwargs); "
+        "unknown names); entry points subpipeline / map(output_names=S) / map(auto_subpipeline=True[, output_names=S]) / run(o, kwargs), "
+        "auto_subpipeline=True without output_names in both streams (provided names closed under the roots still required, or arbitrary); "
+        "directed call DAGs (gen_directed_pipe) and appended un-mapped special functions in map pipelines (add_special_map) so that every "
+        "class cut(root/interior/mixed/empty/none) x needed-function(nullary/all-defaulted/bound-only/plain), tuple use and nested S occurs "
+        "(counters class:*); other routes per case: subpipeline object, thread pool, resume in a run folder, narrowed resume after a FULL "
+        "run, widened resume after a narrower request (the last two judged only when they return; refusals counted); "
         "non-trivial = the needed set is a proper subset of the pipeline or the cut contains an interior name or a needed function has "
         "no root-argument ancestor; distinct by (pipeline, S, I, entry)")
 ASSUMPTIONS = ["networkx graph construction and traversal are mirrored by the model's index graph (prodIdx/predsIdx/succsIdx); only sets of kept functions are compared",
@@ -38,6 +43,11 @@ ASSUMPTIONS = ["networkx graph construction and traversal are mirrored by the mo
                "composition with the provided names substituted; `map` may either reject it (ValueError naming the offending name, before any "
                "user function ran - it is an ill-formed input of the selected partial pipeline) or return the substituted values with exactly "
                "the needed calls; accept/reject is compared with the model",
+               "round 3 (props/c11_comp.py): `S computable from I` is decided by the model over the full pipeline (`computableB`, proved equivalent to "
+               "`Computable`) and compared with the Python reference; a `subpipeline` rejection must list EXACTLY the lacking names after `missing:` "
+               "(more names: correspondence item); an over-provided `map` request that is refused names every over-provided name in the code and in "
+               "the model (`extras`; fewer: correspondence item), one that is answered must agree with the answering model `mapSubLenient`; the global "
+               "value clause for map (partial run = full run on S), proved only locally, is additionally checked MODEL against MODEL on every map case",
                "interpreted constant functions (VERIF_CONST policy `all`): the model never inspects values, so its answers are compared through terms.canon"]
 
 
@@ -150,6 +160,105 @@ def ref_value(funcs, kw, o, log):
     return canon(val(o))      # interpreted constant functions (terms.CONST_SUFFIX): the homomorphic image of the free term
 
 
+def ref_downstream(funcs, I):
+    """`auto_subpipeline=True` without output_names: the names of the functions downstream of a provided name (for an output name: the
+    functions below its producer, as `nx.descendants(graph, node_mapping[n])` gives them) and the outputs they make."""
+    prod = {o: f for f in funcs for o in f["outputs"]}
+
+    def cons(name):
+        return [g for g in funcs if any(q == name and q not in _bound(g) for q, _ in g["params"])]
+
+    stack = []
+    for n in I:
+        if n in prod:
+            stack += [g for o in prod[n]["outputs"] for g in cons(o)]
+        else:
+            stack += cons(n)
+    down = []
+    while stack:
+        g = stack.pop()
+        if g["name"] in down:
+            continue
+        down.append(g["name"])
+        stack += [h for o in g["outputs"] for h in cons(o)]
+    return sorted(down), [o for f in funcs if f["name"] in down for o in f["outputs"]]
+
+
+# ------------------------------------------------------------------------------------------ classes of the quantifier
+CUTS = ("none", "empty", "root", "interior", "mixed")
+FNS = ("nullary", "alldef", "bound", "plain")
+
+
+def classify(funcs, S, I, needed):
+    """The classes of one request (S: list of outputs, the downstream outputs when output_names is None; I: provided names or None;
+    needed: names of the needed functions).  cut: of I; fn: which special functions are among the NEEDED ones (several may be);
+    tuple: how tuple outputs occur; nested: S holds two outputs and the producer of one lies in the dependency cone of the other."""
+    prod = {o: f for f in funcs for o in f["outputs"]}
+    if I is None:
+        cut = "none"
+    elif not I:
+        cut = "empty"
+    else:
+        ni = sum(1 for i in I if i in prod)
+        cut = "interior" if ni == len(I) else ("root" if ni == 0 else "mixed")
+    nf = [f for f in funcs if f["name"] in needed]
+    dn = {q for f in nf for q in _dflt(f)}        # a default declared by any needed function holds for the partial pipeline
+    fn = set()
+    for f in nf:
+        ps = [q for q, _ in f["params"]]
+        free = [q for q in ps if q not in _bound(f)]
+        if not ps:
+            fn.add("nullary")
+        elif not free:
+            fn.add("bound")
+        elif all(q in dn and q not in prod for q in free):
+            fn.add("alldef")
+    fn = sorted(fn) or ["plain"]
+    Sset, Iset = set(S), set(I or [])
+    tup = set()
+    for f in nf:
+        if len(f["outputs"]) < 2:
+            continue
+        req = [o for o in f["outputs"] if o in Sset]
+        if req:
+            tup.add("all-requested" if len(req) == len(f["outputs"]) else "part-requested")
+        else:
+            used = {o for o in f["outputs"] if o not in Iset and any(q == o and q not in _bound(g) for g in nf for q, _ in g["params"])}
+            if used and len(used) < len(f["outputs"]):
+                tup.add("interior-part-consumed")
+            elif used:
+                tup.add("interior-all-consumed")
+    tup = sorted(tup) or ["none"]
+    nested = "single"
+    if len(Sset) > 1:
+        nested = "no"
+        for o in S:
+            cone = ref_needed(funcs, [o], Iset)["needed"]
+            if any(q != o and q in prod and prod[q]["name"] != prod[o]["name"] and prod[q]["name"] in cone for q in S):
+                nested = "yes"
+                break
+    return {"cut": cut, "fn": fn, "tuple": tup, "nested": nested}
+
+
+def count_classes(ctx, stream, cls, computable):
+    """class counters: every axis alone and cut x fn, over all judged well-formed cases, per stream, and (`ok:`) over the computable ones"""
+    keys = [f"cut:{cls['cut']}", f"nested:{cls['nested']}"] + [f"fn:{x}" for x in cls["fn"]] + [f"tuple:{x}" for x in cls["tuple"]] \
+        + [f"x:{cls['cut']}|{x}" for x in cls["fn"]]
+    for k in keys:
+        ctx.count(f"class:{k}")
+        ctx.count(f"class:{stream}:{k}")
+    if computable:
+        for x in cls["fn"]:
+            ctx.count(f"class:ok:x:{cls['cut']}|{x}")
+            ctx.count(f"class:ok:{stream}:x:{cls['cut']}|{x}")
+
+
+def count_entry(ctx, stream, case):
+    e = "sub-only" if case["I"] is None else ("auto-noS" if case["S"] is None else ("auto+S" if case["auto"] else "S-only"))
+    ctx.count(f"entry:{e}")
+    ctx.count(f"entry:{stream}:{e}")
+
+
 # ------------------------------------------------------------------------------------------ generators
 def gen_pipe(rng):
     """pipegen DAG with more nullary functions and some functions whose parameters are all defaulted."""
@@ -163,7 +272,91 @@ def gen_pipe(rng):
                     f["defaults"].append([p, pipegen.sval(f"dflt:{p}")])
             dn = {d[0] for d in f["defaults"]}
             f["params"] = [q for q in f["params"] if q[0] not in dn] + [q for q in f["params"] if q[0] in dn]
+    # bound-only functions (every parameter bound; pipegen binds each parameter with p_bound on its own, so all of them rarely): the bound
+    # names stay in `params`, a bound parameter that names an upstream output is no edge any more
+    for f in desc["funcs"]:
+        if f["params"] and rng.random() < 0.1:
+            bind_all(f)
     return desc
+
+
+def bind_all(f):
+    have = _bound(f)
+    f["bound"] = list(f.get("bound", [])) + [[q, pipegen.sval(f"bound:{q}:{f['name']}")] for q, _ in f["params"] if q not in have]
+    f["defaults"] = [d for d in f.get("defaults", []) if d[0] not in _bound(f)]
+
+
+def special_func(rng, name, out, cls, root, mk):
+    """a function of class `cls` (nullary / alldef / bound / plain) making `out`; `root`: the name of its parameter(s); `mk`: _f or _mf"""
+    if cls == "nullary":
+        return mk(name, [], out)
+    two = rng.random() < 0.3
+    ps = [root] + ([root + "x"] if two else [])
+    if cls == "alldef":
+        return mk(name, ps, out, defaults=[[q, pipegen.sval(f"dflt:{q}")] for q in ps])
+    f = mk(name, ps, out)
+    if cls == "bound":
+        bind_all(f)
+    return f
+
+
+def gen_directed_pipe(rng):
+    """A call DAG built so that every class of the quantifier occurs with the exhaustive S / the cuts of `cuts_for`:
+    s (nullary / all-defaulted / bound-only / plain) -> k;  a(r0) -> oa[, ob];  b(oa, k[, r1]) -> p;  c(p[, ob][, r1 = default]) -> q;
+    optionally t(k) -> u next to it.  Tuple outputs on a and/or s, renames, interpreted constants as in pipegen."""
+    cls = rng.choice(FNS)
+    s_tuple, a_tuple = rng.random() < 0.25, rng.random() < 0.6
+    fs = [special_func(rng, "s", ["k", "k2"] if s_tuple else ["k"], cls, "r2", _f)]
+    if rng.random() < 0.7:
+        fs.append(_f("a", ["r0"], ["oa", "ob"] if a_tuple else ["oa"], defaults=[["r0", pipegen.sval("dflt:r0")]] if rng.random() < 0.4 else ()))
+        first = "oa"
+    else:
+        a_tuple, first = False, "r0"               # no interior name above b: the cuts are root-only / empty
+    bp = [first, "k"] + (["r1"] if rng.random() < 0.4 else [])
+    fs.append(_f("b", bp, ["p"]))
+    cp = ["p"] + (["ob"] if a_tuple and rng.random() < 0.4 else []) + (["k2"] if s_tuple and rng.random() < 0.5 else [])
+    r = rng.random()
+    if r < 0.35:
+        fs.append(_f("c", cp + ["r1"], ["q"], defaults=[["r1", pipegen.sval("dflt:r1")]]))
+    elif r < 0.6:
+        fs.append(_f("c", cp + ["r1"], ["q"]))
+    else:
+        fs.append(_f("c", cp, ["q"]))
+    if rng.random() < 0.3:
+        fs.append(_f("t", ["k"], ["u"]))
+    for f in fs:
+        f["params"] = [[q, f"a{j}" if rng.random() < 0.2 else q] for j, (q, _) in enumerate(f["params"])]
+    pipegen.assign_consts(rng, fs)
+    return {"funcs": fs}
+
+
+def gen_map(rng):
+    """mapgen case, often with an un-mapped special function (nullary / all-defaulted / bound-only / plain) appended, and a consumer of it"""
+    desc = mapgen.gen_case(rng, p_default=0.3)
+    if rng.random() < 0.55:
+        add_special_map(rng, desc, rng.choice(["nullary", "nullary", "alldef", "bound", "bound", "plain"]))
+    return desc
+
+
+def add_special_map(rng, desc, cls):
+    funcs = desc["funcs"]
+    n = len(funcs)
+    outs = [o for f in funcs for o in f["outputs"]]
+    so = [f"y{n}a", f"y{n}b"] if rng.random() < 0.25 else [f"y{n}"]
+    s = special_func(rng, f"f{n}", so, cls, "cz", _mf)
+    new = [s]
+    for q, _ in s["params"]:
+        if q not in _bound(s) and q not in _dflt(s):
+            desc["inputs"].append([q, {"s": f"in:{q}"}])
+    if rng.random() < 0.7:
+        # an un-mapped consumer of it and (whole) of something the pipeline already makes
+        ps = [so[0]] + ([rng.choice(outs)] if rng.random() < 0.8 else []) + (so[1:] if rng.random() < 0.4 else [])
+        if rng.random() < 0.6:      # and of a root of its own: a cut above it leaves a root still needed (mixed cuts)
+            ps.append("cw")
+            desc["inputs"].append(["cw", {"s": "in:cw"}])
+        new.append(_mf(f"f{n + 1}", ps, [f"y{n + 1}"]))
+    pipegen.assign_consts(rng, new)
+    funcs += new
 
 
 def subsets_of(rng, outs, limit=12):
@@ -277,13 +470,18 @@ def _map_obs(fn, log, inputs, **kw):
         return {"err": exc_enum(e), "msg": "reading results: " + str(e), "calls": []}
 
 
-def obs_variants(ctx, p, log, inputs, S, I, rng, internal=None, run_kw=None):
+_VARIANT_AT = {"subobj": 0.0, "par": 0.31, "resume": 0.5, "narrowed": 0.6, "widened": 0.7}
+
+
+def obs_variants(ctx, p, log, inputs, S, I, rng, internal=None, run_kw=None, full=None, narrower=None, which=None):
     """Item 4: other ways to the same partial run.  `subobj`: Pipeline.subpipeline(I, S) as an object, then `.map(inputs)` and
     `.run(o, kwargs)`; `par`: map(output_names=S, parallel=True) on a thread pool; `resume`: map(output_names=S, run_folder=d)
-    twice, the second time with cleanup=False."""
+    twice, the second time with cleanup=False; `narrowed`: the FULL map (inputs `full[0]`, internal shapes `full[1]`) into d, then
+    map(output_names=S, run_folder=d, cleanup=False); `widened`: map(output_names=S1, run_folder=d) then map(output_names=S, run_folder=d,
+    cleanup=False) for a proper subset S1 = `narrower` of S computable from the same I."""
     out = {}
     ikw = {"internal_shapes": internal} if internal else {}
-    r = rng.random()
+    r = rng.random() if which is None else _VARIANT_AT[which]       # `which`: replay of one named variant
     if r < 0.3:
         try:
             sub = pipegen.quiet(p.subpipeline, set(I), set(S))
@@ -304,13 +502,50 @@ def obs_variants(ctx, p, log, inputs, S, I, rng, internal=None, run_kw=None):
         with ThreadPoolExecutor(max_workers=2) as ex:
             out["par"] = _map_obs(p.map, log, inputs, output_names=set(S), parallel=True, executor=ex, storage="dict", **ikw)
     elif r < 0.58 and ctx_tmp(ctx):
-        import os
-        ctx._c11_n = getattr(ctx, "_c11_n", 0) + 1
-        d = os.path.join(ctx_tmp(ctx), f"run{ctx._c11_n}")
+        d = _run_dir(ctx)
         first = _map_obs(p.map, log, inputs, output_names=set(S), parallel=False, run_folder=d, **ikw)
         second = _map_obs(p.map, log, inputs, output_names=set(S), parallel=False, run_folder=d, cleanup=False, **ikw)
         out["resume"] = {"first": first, "second": second}
+        _rm(d)
+    elif r < 0.68 and ctx_tmp(ctx) and full is not None:
+        d = _run_dir(ctx)
+        fkw = {"internal_shapes": full[1]} if full[1] else {}
+        first = _map_obs(p.map, log, full[0], parallel=False, run_folder=d, **fkw)
+        first.pop("outputs", None)           # the full run's values are not this variant's business (and large)
+        second = _map_obs(p.map, log, inputs, output_names=set(S), parallel=False, run_folder=d, cleanup=False, **ikw)
+        out["narrowed"] = {"first": first, "second": second, "same_inputs": sorted(full[0]) == sorted(inputs)}
+        _rm(d)
+    elif r < 0.80 and ctx_tmp(ctx) and narrower:
+        d = _run_dir(ctx)
+        first = _map_obs(p.map, log, inputs, output_names=set(narrower), parallel=False, run_folder=d, **ikw)
+        second = _map_obs(p.map, log, inputs, output_names=set(S), parallel=False, run_folder=d, cleanup=False, **ikw)
+        out["widened"] = {"first": first, "second": second, "S1": list(narrower)}
+        _rm(d)
     return out
+
+
+def _rm(d):
+    import shutil
+    shutil.rmtree(d, ignore_errors=True)
+
+
+def _run_dir(ctx):
+    import os
+    ctx._c11_n = getattr(ctx, "_c11_n", 0) + 1
+    return os.path.join(ctx_tmp(ctx), f"run{ctx._c11_n}")
+
+
+def narrower_of(rng, funcs, S, I):
+    """a proper non-empty subset S1 of S that is a well-formed request with the same I (nothing missing, no surplus, no clash), or None"""
+    if len(S) < 2:
+        return None
+    cands = [list(c) for k in range(1, len(S)) for c in itertools.combinations(S, k)]
+    rng.shuffle(cands)
+    for c in cands[:6]:
+        r = ref_needed(funcs, c, set(I))
+        if not r["missing"] and not r["surplus"] and not r["clash"]:
+            return c
+    return None
 
 
 def ctx_tmp(ctx):
@@ -367,6 +602,38 @@ def judge_variants(ctx, case, impl, want, needed, ncalls_ok):
         if a["called"] != needed or not ncalls_ok(a["calls"]):
             ctx.violation(case, f"map(output_names=S, run_folder=d) invoked {a['called']} instead of exactly the needed {needed}", impl=a, model=needed)
             return False
+    # resume of a narrowed / widened request in a run folder another request filled.  The property's text demands of the second run only:
+    # IF it returns, the values of S are right and nothing outside the needed set was invoked; a refusal before any user function ran
+    # (pipefunc compares the run folder's RunInfo: inputs, defaults, shapes, MapSpecs) is counted, not judged.
+    for key, what in (("narrowed", "map(output_names=S, run_folder=d, cleanup=False) after a FULL map into d"),
+                      ("widened", "map(output_names=S, run_folder=d, cleanup=False) after map(output_names=S1, run_folder=d)")):
+        if key not in v:
+            continue
+        ctx.count(f"variant:{key}-resume")
+        a, b = v[key]["first"], v[key]["second"]
+        if key == "narrowed":
+            ctx.count(f"variant:narrowed-resume:{'same-inputs' if v[key]['same_inputs'] else 'fewer-inputs'}")
+        if "err" in a:
+            ctx.count(f"variant:{key}-resume:first-run-fails:{a['err']}")       # judged where that request is a case of its own
+            continue
+        if "err" in b:
+            outside = [n for n in b.get("calls", []) if n not in needed]
+            if outside:
+                ctx.violation(case, f"{what} invoked {outside} (outside the needed {needed}) and then failed: {b.get('msg', '')[:120]}", impl=b, model=needed)
+                return False
+            why = next((w for w in ("Internal shapes", "MapSpec", "Shapes", "Inputs", "Defaults", "extra inputs") if w in b.get("msg", "")), "other")
+            ctx.count(f"variant:{key}-resume:{'refused' if not b.get('calls') else 'failed-after-needed-calls'}:{b['err']}:{why.replace(' ', '-')}")
+            continue
+        ctx.count(f"variant:{key}-resume:returned")
+        for o, w in want.items():
+            if b["outputs"].get(o) != w:
+                ctx.violation(case, f"{what}: value of `{o}` is not the full pipeline's value with the provided names substituted",
+                              impl={"value": b["outputs"].get(o)}, model={"value": w})
+                return False
+        if [n for n in b["called"] if n not in needed]:
+            ctx.violation(case, f"{what} invoked {b['called']}, not only needed functions {needed}", impl=b, model=needed)
+            return False
+        ctx.count(f"variant:{key}-resume:returned:{'nothing-recomputed' if not b['called'] else ('all-needed-recomputed' if b['called'] == needed else 'part-recomputed')}")
     return True
 
 
@@ -414,6 +681,9 @@ def pipe_requests(ctx, desc, rng, items):
     funcs = desc["funcs"]
     p, log = pipegen.build(desc)
     outs = pipegen.all_outputs(desc)
+    prod = set(outs)
+    allroots = sorted({q for f in funcs for q, _ in f["params"] if q not in prod and q not in _bound(f)})
+    alldflt = {q for f in funcs for q in _dflt(f)}
     for S in subsets_of(rng, outs, limit=ctx.n(10, 14)):
         for kind, I in cuts_for(rng, funcs, S):
             I = list(dict.fromkeys(I))
@@ -430,22 +700,37 @@ def pipe_requests(ctx, desc, rng, items):
             elif len(S) == 1 and kind == "bad:tuple-part":
                 impl["run"] = obs_run(p, log, S[0], {k: kwval(k) for k in I})
             if not ref["missing"] and not ref["clash"] and not ref["surplus"] and not kind.startswith("bad"):
-                impl["variants"] = obs_variants(ctx, p, log, inputs, S, I, rng, run_kw={k: kwval(k) for k in I})
+                # the full run's inputs: I (when it is a root-only cut) and every other root the full pipeline requires
+                full = None
+                if all(i not in prod for i in I):
+                    extra = [r for r in allroots if r not in I and r not in ref["roots"] and (r not in alldflt or rng.random() < 0.3)]
+                    full = ({k: terms.dec(kwval(k)) for k in list(I) + extra}, None)
+                impl["variants"] = obs_variants(ctx, p, log, inputs, S, I, rng, run_kw={k: kwval(k) for k in I}, full=full,
+                                                narrower=narrower_of(rng, funcs, S, I))
             items.append((case, ref, impl, reqs))
     # auto_subpipeline without output_names: everything downstream of the provided names
+    autos = []
     if rng.random() < 0.5:
-        prod = set(outs)
-        allroots = sorted({q for f in funcs for q, _ in f["params"] if q not in prod and q not in _bound(f)})
         pool = allroots + outs
         I = sorted(rng.sample(pool, rng.randint(1, min(3, len(pool))))) if pool else []
         if rng.random() < 0.4:
             I = allroots
+        autos.append(I)
+    if rng.random() < 0.6:
+        I = sorted(auto_cut(rng, funcs, outs, allroots, frozenset(), "closed"))      # provided names from which everything downstream IS computable
+        if I and I not in autos:
+            autos.append(I)
+    if rng.random() < 0.4:
+        I = sorted(auto_cut(rng, funcs, outs, allroots, frozenset(), "any"))         # ... and from which it may not be
+        if I and I not in autos:
+            autos.append(I)
+    for I in autos:
         inputs = {k: terms.dec(kwval(k)) for k in I}
         case = {"stream": "pipe", "funcs": funcs, "S": None, "I": I, "kind": "auto-downstream", "auto": True}
         impl = {"sub": obs_subpipeline(p, I, None), "map": obs_map(p, log, inputs, None, True)}
         reqs = [{"m": "pipe.sub", "a": {"funcs": funcs, "inputs": I, "outputs": None}},
                 {"m": "map.sub", "a": {"funcs": mfuncs_of(funcs), "inputs": [[k, kwval(k)] for k in I], "outputs": None, "auto": True}}]
-        items.append((case, None, impl, reqs))
+        items.append((case, ref_auto(funcs, I), impl, reqs))
     # output_names only (no inputs): subpipeline alone
     S = [rng.choice(outs)]
     case = {"stream": "pipe", "funcs": funcs, "S": S, "I": None, "kind": "outputs-only", "auto": False}
@@ -453,9 +738,49 @@ def pipe_requests(ctx, desc, rng, items):
                   [{"m": "pipe.sub", "a": {"funcs": funcs, "inputs": None, "outputs": S}}]))
 
 
+def ref_auto(funcs, I):
+    """reference for auto_subpipeline=True without output_names: `ref_needed` of the downstream outputs (+ "down", "S"), None when nothing is downstream"""
+    down, S = ref_downstream(funcs, I)
+    if not down:
+        return None
+    ref = ref_needed(funcs, S, set(I))
+    ref.update({"down": down, "S": S})
+    return ref
+
+
 def mentions(msg, name):
     import re
     return re.search(r"(?<![A-Za-z0-9_])" + re.escape(name) + r"(?![A-Za-z0-9_])", msg) is not None
+
+
+def judge_auto_ref(ctx, case, ref, ob, mmap, stream):
+    """map(auto_subpipeline=True) without output_names against the property's text (reference `ref_auto`, a well-formed request): not
+    computable -> rejected naming what is missing before any user function ran; computable -> every function downstream of a provided
+    name is computed and exactly the needed functions are invoked (values are judged by the caller)."""
+    ctx.count(f"{stream}:auto-downstream:{'computable' if not ref['missing'] else 'not-computable'}")
+    if ref["missing"]:
+        if "err" not in ob:
+            ctx.violation(case, f"map(auto_subpipeline=True): request that is not computable (missing {ref['missing']}) is accepted", impl=ob, model=mmap)
+        elif ob["err"] != "ValueError" or [r for r in ref["missing"] if not mentions(ob["msg"], r)]:
+            ctx.violation(case, f"map(auto_subpipeline=True): the rejection ({ob['err']}) does not name the missing root(s) {ref['missing']}", impl=ob, model=mmap)
+        elif ob.get("calls"):
+            ctx.violation(case, "map(auto_subpipeline=True): user functions ran before the rejection", impl=ob, model=mmap)
+        else:
+            return True
+        return False
+    if "err" in ob:
+        if stream == "map" and "err" in mmap and mmap.get("at") == "map":
+            return True         # the run of the selected partial pipeline is refused for a reason the map model shares: not C11's clause
+        ctx.violation(case, f"map(auto_subpipeline=True) refuses inputs from which everything downstream is computable: {ob['msg'][:120]}", impl=ob, model=mmap)
+        return False
+    lacking = [o for o in ref["S"] if o not in ob["outputs"]]
+    if lacking:
+        ctx.violation(case, f"map(auto_subpipeline=True) does not return {lacking}, which are downstream of the provided names", impl=ob, model=mmap)
+        return False
+    if stream == "pipe" and ob["called"] != ref["needed"]:
+        ctx.violation(case, f"map(auto_subpipeline=True) invoked {ob['called']} instead of exactly the needed {ref['needed']}", impl=ob, model=mmap)
+        return False
+    return True
 
 
 def judge_pipe(ctx, case, ref, impl, resps):
@@ -463,9 +788,14 @@ def judge_pipe(ctx, case, ref, impl, resps):
     msub = model_sub(resps[0]["r"]["now"])
     legacy = resps[0]["r"]["legacy"]
     ctx.count(f"pipe:kind:{kind}")
+    count_entry(ctx, "pipe", case)
     if kind == "auto-downstream":
         mmap = model_map(resps[1]["r"])
         ctx.record(case, nontrivial=bool(I))
+        if ref is not None and not ref["clash"] and not ref["surplus"]:
+            count_classes(ctx, "pipe", classify(funcs, ref["S"], I, ref["needed"]), not ref["missing"])
+            if not judge_auto_ref(ctx, case, ref, impl["map"], mmap, "pipe"):
+                return
         if ("err" in impl["sub"]) != ("err" in msub) or ("err" not in msub and impl["sub"]["kept"] != msub["kept"]):
             ctx.violation(case, "subpipeline(inputs) without output_names differs from the model", found_input=False,
                           item="correspondence:auto-downstream", impl=impl["sub"], model=msub)
@@ -496,6 +826,7 @@ def judge_pipe(ctx, case, ref, impl, resps):
     if orphan:
         ctx.count("pipe:needed-has-nullary-or-all-defaulted")
     if kind == "outputs-only":
+        count_classes(ctx, "pipe", classify(funcs, S, None, ref["needed"]), True)
         if "err" in impl["sub"] or impl["sub"]["kept"] != ref["needed"]:
             ctx.violation(case, f"subpipeline(output_names={S}) keeps {impl['sub'].get('kept', impl['sub'])}, needed {ref['needed']}", impl=impl["sub"], model=msub)
         elif msub != impl["sub"]:
@@ -563,6 +894,7 @@ def judge_pipe(ctx, case, ref, impl, resps):
                               found_input=False, item="correspondence:malformed", impl=impl[key], model=m)
         return
     computable = not ref["missing"]
+    count_classes(ctx, "pipe", classify(funcs, S, I, ref["needed"]), computable)
     ctx.count(f"pipe:{'computable' if computable else 'not-computable'}")
     ctx.count(f"pipe:|S|={len(S)}")
     if computable and "err" in legacy:
@@ -729,8 +1061,90 @@ def map_requests(ctx, desc, rng, items):
             if not ref["missing"] and not ref["clash"] and not ref["surplus"] and not kind.startswith("bad") and "err" not in one[0]:
                 io = map_io(desc, I, full_out, full_enc, full_inputs)
                 isub = {o: sh for o, sh in (internal or {}).items() if o not in I} or None
-                impl["variants"] = obs_variants(ctx, p, log, io[0], S, I, rng, internal=isub)
+                full = (full_inputs, internal) if all(i not in full_out for i in I) else None
+                impl["variants"] = obs_variants(ctx, p, log, io[0], S, I, rng, internal=isub, full=full, narrower=narrower_of(rng, funcs, S, I))
             items.append((case, ref, impl, [one[1]]))
+    # auto_subpipeline=True without output_names: everything downstream of the provided names (roots and/or arrays the full run produced)
+    given = [k for k, _ in desc["inputs"]]
+    seen = []
+    for mode in ("closed", "closed", "any"):
+        I = auto_cut(rng, funcs, outs, given, pinned, mode)
+        if not I or sorted(I) in seen:
+            continue
+        seen.append(sorted(I))
+        ref = ref_auto(funcs, I)
+        one = map_one(desc, None, I, True, p, log, internal, full_inputs, full_out, full_enc)
+        if one is None:
+            ctx.skip("map: no value for a chosen name")
+            continue
+        case = {"stream": "map", "desc": desc, "S": None, "I": I, "kind": "auto-downstream", "auto": True}
+        impl = {"map": one[0], "full": {o: full_enc[o] for o in (ref["S"] if ref else [])},
+                "full_calls": [c for c in full_calls if ref and c[0] in ref["needed"]]}
+        items.append((case, ref, impl, [one[1]]))
+
+
+def auto_cut(rng, funcs, outs, given, pinned, mode):
+    """provided names for map(auto_subpipeline=True): some arrays/values the full run produced and/or some roots; mode `closed`: plus every
+    root that what lies downstream still requires (so that the request is computable), to a fixed point"""
+    prod = set(outs)
+    consumed = sorted({q for f in funcs for q, _ in f["params"] if q in prod and q not in _bound(f)})
+    roots = sorted({q for f in funcs for q, _ in f["params"] if q not in prod and q not in _bound(f)})
+    r = rng.random()
+    C = rng.sample(consumed, rng.randint(1, min(2, len(consumed)))) if consumed and r < 0.7 else []
+    R = rng.sample(roots, rng.randint(1, min(2, len(roots)))) if roots and (r >= 0.5 or not C) else []
+    I = list(dict.fromkeys(C + R))
+    if mode == "closed":
+        for _ in range(len(roots) + 1):
+            ref = ref_auto(funcs, I)
+            if ref is None:
+                break
+            more = [m for m in ref["missing"] if m not in I] + [q for q in ref["roots"] if q in pinned and q not in I]
+            if ref["defaulted"] and rng.random() < 0.3:
+                more += [q for q in ref["defaulted"] if q in ref["roots"] and q not in I and q in given]
+            if not more:
+                break
+            I += list(dict.fromkeys(more))
+    ref = ref_auto(funcs, I)
+    if ref is not None:     # a supplied mapped root with an array default stays supplied (see `cuts_for`)
+        I += [q for q in ref["roots"] if q in pinned and q not in I]
+    return I
+
+
+def judge_map_auto(ctx, case, ref, impl, mmap):
+    """map(inputs, auto_subpipeline=True) on a map pipeline, no output_names"""
+    I, funcs, ob = case["I"], case["desc"]["funcs"], impl["map"]
+    prod = {o for f in funcs for o in f["outputs"]}
+    ctx.record(case, nontrivial=ref is not None and (len(ref["needed"]) < len(funcs) or any(i in prod for i in I)))
+    if ref is None or ref["clash"] or ref["surplus"]:
+        # nothing downstream / a provided name that what is downstream still produces or does not take: outside the quantifier
+        ctx.count("map:auto-downstream:" + ("nothing-downstream" if ref is None else "over-provided"))
+        if ("err" in ob) != ("err" in mmap):
+            ctx.violation(case, f"map(auto_subpipeline=True): ill-formed request {'rejected' if 'err' in ob else 'accepted'} by the implementation only",
+                          found_input=False, item="correspondence:auto-downstream", impl=ob, model=mmap)
+        return
+    count_classes(ctx, "map", classify(funcs, ref["S"], I, ref["needed"]), not ref["missing"])
+    if not judge_auto_ref(ctx, case, ref, ob, mmap, "map"):
+        return
+    if ref["missing"]:
+        if "err" not in mmap or mmap.get("missing") != ref["missing"]:
+            ctx.violation(case, "the model's missing roots differ from the reference", found_input=False, item="correspondence:missing", impl=ref, model=mmap)
+        return
+    if "err" in ob:
+        ctx.count(f"map:run-refused-by-both:{ob['err']}")
+        return
+    ctx.count("map:auto-downstream:ok")
+    for o in ref["S"]:
+        if ob["outputs"].get(o) != impl["full"][o]:
+            ctx.violation(case, f"map(auto_subpipeline=True): `{o}` differs from what the full pipeline computes",
+                          impl={"value": ob["outputs"].get(o)}, model={"value": impl["full"][o]})
+            return
+    if ob["called"] != [n for n in ref["needed"] if any(c[0] == n for c in impl["full_calls"])] or ob["calls"] != impl["full_calls"]:
+        ctx.violation(case, f"map(auto_subpipeline=True) invoked {ob['called']} ({len(ob['calls'])} calls) instead of exactly the needed {ref['needed']} "
+                            f"({len(impl['full_calls'])} calls)", impl=ob, model=mmap)
+        return
+    if "err" in mmap or mmap["kept"] != ref["needed"] or mmap["outputs"] != ob["outputs"] or mmap["calls"] != ob["calls"]:
+        ctx.violation(case, "model differs from the implementation on map(auto_subpipeline=True)", found_input=False,
+                      item="correspondence:auto-downstream", impl=ob, model=mmap)
 
 
 def judge_map(ctx, case, ref, impl, resps):
@@ -739,6 +1153,10 @@ def judge_map(ctx, case, ref, impl, resps):
     mmap = model_map(resps[0]["r"])
     legacy = resps[0]["r"]["legacy"]
     ctx.count(f"map:kind:{kind}")
+    count_entry(ctx, "map", case)
+    if S is None:
+        judge_map_auto(ctx, case, ref, impl, mmap)
+        return
     prod = {o for f in funcs for o in f["outputs"]}
     orphan = any(all(q in _bound(f) or q in _dflt(f) for q, _ in f["params"]) for f in funcs if f["name"] in ref["needed"])
     ctx.record(case, len(ref["needed"]) < len(funcs) or any(i in prod for i in I) or orphan)
@@ -768,6 +1186,7 @@ def judge_map(ctx, case, ref, impl, resps):
                           found_input=False, item="correspondence:malformed", impl=ob, model=mmap)
         return
     computable = not ref["missing"]
+    count_classes(ctx, "map", classify(funcs, S, I, ref["needed"]), computable)
     ctx.count(f"map:{'computable' if computable else 'not-computable'}")
     if computable and "err" in legacy:
         ctx.count("pinned-code-would-refuse")
@@ -846,6 +1265,9 @@ MAP_CORPUS = [
 ]
 
 
+N_PIPE, N_PIPE_DIRECTED, N_MAP = (86, 1200), (10, 120), (74, 1000)       # (quick, thorough) pipelines per stream
+
+
 def run(ctx):
     import shutil
     import tempfile
@@ -861,18 +1283,25 @@ def _run(ctx):
     items = []
     for d in CORPUS:
         pipe_requests(ctx, copy.deepcopy(d), rng, items)
-    for _ in range(ctx.n(115, 1500)):
+    for _ in range(ctx.n(N_PIPE[0], N_PIPE[1])):
         pipe_requests(ctx, gen_pipe(rng), rng, items)
+    for _ in range(ctx.n(N_PIPE_DIRECTED[0], N_PIPE_DIRECTED[1])):
+        pipe_requests(ctx, gen_directed_pipe(rng), rng, items)
     for d in MAP_CORPUS:
         map_requests(ctx, copy.deepcopy(d), rng, items)
-    for _ in range(ctx.n(90, 1200)):
-        map_requests(ctx, mapgen.gen_case(rng, p_default=0.3), rng, items)
-    flat = [r for it in items for r in it[3]]
+    for _ in range(ctx.n(N_MAP[0], N_MAP[1])):
+        map_requests(ctx, gen_map(rng), rng, items)
+    from props import c11_comp                         # round 3: `Computable` decided by the model over the full pipeline
+    c11_comp.reset()
+    comp = [c11_comp.requests(it[0], it[3]) if c11_comp.applies(it[0]) else [] for it in items]
+    flat = [r for it, cr in zip(items, comp) for r in it[3] + cr]
     outs = ctx.lean(flat)
     pos = 0
-    for case, ref, impl, reqs in items:
+    for (case, ref, impl, reqs), cr in zip(items, comp):
         resps = outs[pos:pos + len(reqs)]
-        pos += len(reqs)
+        pos += len(reqs) + len(cr)
+        if cr:
+            c11_comp.judge(ctx, case, ref, impl, outs[pos - len(cr):pos], resps)
         if case["stream"] == "pipe":
             judge_pipe(ctx, case, ref, impl, resps)
         else:
@@ -888,11 +1317,45 @@ def replay(ctx, case):
         if I is not None:
             print("implementation map:", obs_map(p, log, {k: terms.dec(kwval(k)) for k in I}, S, case["auto"]))
         print("model:", ctx.lean([{"m": "pipe.sub", "a": {"funcs": case["funcs"], "inputs": I, "outputs": S}}])[0]["r"])
+        if I is not None and S:
+            funcs = case["funcs"]
+            ref = ref_needed(funcs, S, set(I))
+            prod = {o for f in funcs for o in f["outputs"]}
+            roots = sorted({q for f in funcs for q, _ in f["params"] if q not in prod and q not in _bound(f)})
+            full = ({k: terms.dec(kwval(k)) for k in list(I) + [r for r in roots if r not in I and r not in ref["roots"]]}, None) \
+                if all(i not in prod for i in I) else None
+            _replay_variants(ctx, p, log, {k: terms.dec(kwval(k)) for k in I}, S, I, funcs, None, full)
     else:
         desc = case["desc"]
         p, log, internal, full_inputs, full_out, full_enc, full_calls = map_full(desc)
-        print("full run:", {k: full_enc[k] for k in case["S"]})
-        print("reference:", ref_needed(desc["funcs"], case["S"], set(case["I"])))
+        print("full run:", {k: full_enc[k] for k in (case["S"] or full_enc)})
+        print("reference:", ref_needed(desc["funcs"], case["S"], set(case["I"])) if case["S"] else ref_auto(desc["funcs"], case["I"]))
         ob, req = map_one(desc, case["S"], case["I"], case["auto"], p, log, internal, full_inputs, full_out, full_enc)
         print("implementation map(output_names=S):", ob)
         print("model:", ctx.lean([req])[0]["r"])
+        if case["S"]:
+            io = map_io(desc, case["I"], full_out, full_enc, full_inputs)
+            isub = {o: sh for o, sh in (internal or {}).items() if o not in case["I"]} or None
+            full = (full_inputs, internal) if all(i not in full_out for i in case["I"]) else None
+            _replay_variants(ctx, p, log, io[0], case["S"], case["I"], desc["funcs"], isub, full)
+
+
+def _replay_variants(ctx, p, log, inputs, S, I, funcs, internal, full):
+    """every other route to the same partial run (the check draws one per case), incl. every narrower first request of `widened`"""
+    import shutil
+    import tempfile
+    made = ctx_tmp(ctx) is None
+    if made:
+        ctx._c11_tmp = tempfile.mkdtemp(prefix="verif-c11-")
+    try:
+        for which in ("subobj", "par", "resume", "narrowed"):
+            print(f"variant {which}:", obs_variants(ctx, p, log, inputs, S, I, ctx.rng, internal=internal, full=full, which=which))
+        for k in range(1, len(S)):
+            for c in itertools.combinations(S, k):
+                r = ref_needed(funcs, list(c), set(I))
+                if not r["missing"] and not r["surplus"] and not r["clash"]:
+                    print(f"variant widened from {list(c)}:", obs_variants(ctx, p, log, inputs, S, I, ctx.rng, internal=internal, narrower=list(c), which="widened"))
+    finally:
+        if made:
+            shutil.rmtree(ctx._c11_tmp, ignore_errors=True)
+            ctx._c11_tmp = None
